@@ -804,6 +804,128 @@ theorem delpic_keeps_referenced_media (own others : List Rel) (media : List Str)
         rw [List.any_eq_true]
         exact ⟨x, hx, by simp [hty, heq]⟩
 
+/-! ## reference closure: drawing ↔ chart ↔ media ↔ VML ↔ tables … -/
+
+/-- every relationship joins two existing parts, every used id has a relationship in its part
+(the `rel-target` and `rid-resolves` conjuncts of `WF`, as a state invariant) -/
+def closedG (g : RefG) : Prop :=
+  (∀ r ∈ g.rels, r.1 ∈ g.parts ∧ r.2.2 ∈ g.parts) ∧
+  (∀ u ∈ g.uses, u.1 ∈ g.parts ∧ ∃ t, (u.1, u.2, t) ∈ g.rels)
+
+theorem closed_addPart (g : RefG) (p : Str) (h : closedG g) : closedG (g.addPart p) := by
+  refine ⟨fun r hr => ?_, fun u hu => ?_⟩
+  · obtain ⟨a, b⟩ := h.1 r hr
+    exact ⟨List.mem_append_left _ a, List.mem_append_left _ b⟩
+  · obtain ⟨a, b⟩ := h.2 u hu
+    exact ⟨List.mem_append_left _ a, b⟩
+
+theorem closed_addRel (g : RefG) (s i t : Str) (h : closedG g) (hs : s ∈ g.parts) (ht : t ∈ g.parts) :
+    closedG (g.addRel s i t) := by
+  refine ⟨fun r hr => ?_, fun u hu => ?_⟩
+  · rcases List.mem_append.mp hr with hr | hr
+    · exact h.1 r hr
+    · simp only [List.mem_singleton] at hr; subst hr; exact ⟨hs, ht⟩
+  · obtain ⟨a, t', b⟩ := h.2 u hu
+    exact ⟨a, t', List.mem_append_left _ b⟩
+
+theorem closed_addUse (g : RefG) (p i t : Str) (h : closedG g) (hp : p ∈ g.parts) (hr : (p, i, t) ∈ g.rels) :
+    closedG (g.addUse p i) := by
+  refine ⟨h.1, fun u hu => ?_⟩
+  rcases List.mem_append.mp hu with hu | hu
+  · exact h.2 u hu
+  · simp only [List.mem_singleton] at hu; subst hu; exact ⟨hp, t, hr⟩
+
+theorem closed_dropUse (g : RefG) (p i : Str) (h : closedG g) : closedG (g.dropUse p i) :=
+  ⟨h.1, fun u hu => h.2 u (List.mem_of_mem_erase hu)⟩
+
+/-- a relationship may go once nothing in its source part uses its id any more -/
+theorem closed_dropRel (g : RefG) (s i : Str) (h : closedG g) (hun : (s, i) ∉ g.uses) :
+    closedG (g.dropRel s i) := by
+  refine ⟨fun r hr => h.1 r (List.mem_filter.mp hr).1, fun u hu => ?_⟩
+  obtain ⟨a, t, b⟩ := h.2 u hu
+  refine ⟨a, t, List.mem_filter.mpr ⟨b, ?_⟩⟩
+  cases hc : ((u.1 == s) && (u.2 == i)) with
+  | false => simpa using hc
+  | true =>
+    exfalso
+    simp only [Bool.and_eq_true] at hc
+    apply hun
+    have : u = (s, i) := by
+      cases u; simp only at hc; rw [eq_of_beq hc.1, eq_of_beq hc.2]
+    rw [← this]; exact hu
+
+/-- a part may go once no relationship starts or ends at it and nothing in it uses an id -/
+theorem closed_dropPart (g : RefG) (p : Str) (h : closedG g)
+    (hr : ∀ r ∈ g.rels, r.1 ≠ p ∧ r.2.2 ≠ p) (hu : ∀ u ∈ g.uses, u.1 ≠ p) : closedG (g.dropPart p) := by
+  refine ⟨fun r hr' => ?_, fun u hu' => ?_⟩
+  · obtain ⟨a, b⟩ := h.1 r hr'
+    exact ⟨List.mem_filter.mpr ⟨a, by simpa using (hr r hr').1⟩, List.mem_filter.mpr ⟨b, by simpa using (hr r hr').2⟩⟩
+  · obtain ⟨a, t, b⟩ := h.2 u hu'
+    exact ⟨List.mem_filter.mpr ⟨a, by simpa using hu u hu'⟩, t, b⟩
+
+/-- `closure_add_object`: adding an object of any kind (chart, shape, picture, comment, form
+control, slicer: container linked from the worksheet on first use, leaf part linked from the
+container) keeps the reference closure. -/
+theorem closure_add_object (g : RefG) (sheet container leaf ridS ridC : Str) (first newLeaf : Bool)
+    (h : closedG g) (hsheet : sheet ∈ g.parts)
+    (hcont : first = false → container ∈ g.parts) (hleaf : newLeaf = false → leaf ∈ g.parts) :
+    closedG (g.addObject sheet container leaf ridS ridC first newLeaf) := by
+  unfold RefG.addObject
+  dsimp only
+  -- step 1: the container
+  have h1 : closedG (if first then ((g.addPart container).addRel sheet ridS container).addUse sheet ridS else g) ∧
+      container ∈ (if first then ((g.addPart container).addRel sheet ridS container).addUse sheet ridS else g).parts ∧
+      (∀ x ∈ g.parts, x ∈ (if first then ((g.addPart container).addRel sheet ridS container).addUse sheet ridS else g).parts) := by
+    cases first with
+    | false => exact ⟨h, hcont rfl, fun x hx => hx⟩
+    | true =>
+      have a := closed_addPart g container h
+      have hs' : sheet ∈ (g.addPart container).parts := List.mem_append_left _ hsheet
+      have hc' : container ∈ (g.addPart container).parts := List.mem_append_right _ (List.mem_singleton.mpr rfl)
+      have b := closed_addRel (g.addPart container) sheet ridS container a hs' hc'
+      have c := closed_addUse ((g.addPart container).addRel sheet ridS container) sheet ridS container b hs'
+        (List.mem_append_right _ (List.mem_singleton.mpr rfl))
+      exact ⟨c, hc', fun x hx => List.mem_append_left _ hx⟩
+  generalize (if first then ((g.addPart container).addRel sheet ridS container).addUse sheet ridS else g) = g1 at h1
+  obtain ⟨c1, hc1, hsub⟩ := h1
+  -- step 2: the leaf
+  have h2 : closedG (if newLeaf then g1.addPart leaf else g1) ∧ leaf ∈ (if newLeaf then g1.addPart leaf else g1).parts ∧
+      container ∈ (if newLeaf then g1.addPart leaf else g1).parts := by
+    cases newLeaf with
+    | false => exact ⟨c1, hsub leaf (hleaf rfl), hc1⟩
+    | true => exact ⟨closed_addPart g1 leaf c1, List.mem_append_right _ (List.mem_singleton.mpr rfl), List.mem_append_left _ hc1⟩
+  generalize (if newLeaf then g1.addPart leaf else g1) = g2 at h2
+  obtain ⟨c2, hl2, hk2⟩ := h2
+  exact closed_addUse (g2.addRel container ridC leaf) container ridC leaf (closed_addRel g2 container ridC leaf c2 hk2 hl2) hk2
+    (List.mem_append_right _ (List.mem_singleton.mpr rfl))
+
+/-- `closure_delete_chart`: DeleteChart only takes the anchor out of the drawing (regenerated
+fact: it deletes no part, no relationship, no Override), so the closure cannot break. -/
+theorem closure_delete_chart (g : RefG) (container ridC : Str) (h : closedG g) :
+    Facts.C05.deleteChartKeepsParts = true ∧ closedG (g.deleteChart container ridC) :=
+  ⟨by decide, closed_dropUse g container ridC h⟩
+
+/-- `closure_delete_table`: DeleteTable removes the tablePart entry, the worksheet relationship
+and the table part together; if that relationship was the only one to the table part and the id
+is used once, the closure holds afterwards. -/
+theorem closure_delete_table (g : RefG) (sheet rid table : Str) (h : closedG g)
+    (honce : (sheet, rid) ∉ g.uses.erase (sheet, rid))
+    (honly : ∀ r ∈ g.rels, (r.1 ≠ table) ∧ (r.2.2 = table → r.1 = sheet ∧ r.2.1 = rid))
+    (hnouse : ∀ u ∈ g.uses, u.1 ≠ table) :
+    closedG (g.deleteTable sheet rid table) := by
+  unfold RefG.deleteTable
+  have a := closed_dropUse g sheet rid h
+  have b := closed_dropRel (g.dropUse sheet rid) sheet rid a honce
+  apply closed_dropPart _ table b
+  · intro r hr
+    obtain ⟨hm, hk⟩ := List.mem_filter.mp hr
+    obtain ⟨h1, h2⟩ := honly r hm
+    refine ⟨h1, fun ht => ?_⟩
+    obtain ⟨e1, e2⟩ := h2 ht
+    simp [e1, e2] at hk
+  · intro u hu
+    exact hnouse u (List.mem_of_mem_erase hu)
+
 /-! ## element order inside worksheets and chart sheets -/
 
 theorem stepOk_of_ltB {schema : List String} {a b : String} (h : ltB schema a b = true) : stepOk schema a b = true := by
